@@ -310,7 +310,7 @@ func fieldName(t types.Type, i int) string {
 	if p, ok := t.(*types.Pointer); ok {
 		t = p.Elem().Underlying()
 	}
-	return t.(*types.Struct).Field(i).Name()
+	return fname(t.(*types.Struct).Field(i))
 }
 
 // pure wrappers: the value is the argument, possibly re-boxed.
@@ -556,7 +556,7 @@ func errResult(call *ssa.Call) ssa.Value {
 
 func isErrorType(t types.Type) bool {
 	n, ok := types.Unalias(t).(*types.Named)
-	return ok && n.Obj().Pkg() == nil && n.Obj().Name() == "error"
+	return ok && n.Obj().Pkg() == nil && tname(n.Obj()) == "error"
 }
 
 func isNilConst(v ssa.Value) bool {
